@@ -167,6 +167,11 @@ def gen_job(verif_seed, tier, index):
                     and any(n == m["name"] for n, _ in spec["molecules"])})
     if rings and (mode in ("cycle", "mix") or g.random() < 0.3):
         job["opts"]["cycles"] = rings if g.random() < 0.7 else [g.choice(rings)]
+        if job.get("ring_with_distance_restraint"):
+            # a distance restraint on a ring that is NOT declared cyclic is grown breadth-first, i.e. as a branched
+            # molecule, on which polyply refuses distance restraints (with a malformed message: KeyError ' '): every
+            # ring is declared then
+            job["opts"]["cycles"] = rings
         job["opts"]["cycle_tol"] = g.choice([0.0, 0.1, 0.3])
     return job
 
